@@ -180,6 +180,8 @@ def iterate_concrete(eng, v):
         from . import npmodels
 
         return npmodels.narr_rows(eng, v)
+    if isinstance(v, SArr) and isinstance(v.n, int) and not isinstance(v.n, bool):  # a 1-D array of exactly n cells
+        return [v.get(j) for j in range(v.n)]
     if isinstance(v, (range, str, dict, set, frozenset)):
         return list(v)
     if type(v).__name__ == "S2Arr" and v.transposed:  # k x n with concrete k: iterating / unpacking gives its k rows
@@ -405,9 +407,18 @@ def getitem(eng, base, idx):
 
 
 def dict_get(eng, d, key, default=KeyError):
-    if d.items is not None:
-        if isinstance(key, Sym):
+    if d.items is not None and isinstance(key, Sym):
+        if not d.items and d.default_factory is None:  # an empty dict: every lookup misses
+            if default is not KeyError:
+                return default
+            if not eng.spec_mode and getattr(eng, "pure_mode", 0):
+                # the element of a comprehension over a symbolic-length sequence: the lookup must be unreachable (empty sequence)
+                eng.prove(eng.site("key-present"), z3.BoolVal(False), "safety", "dict lookup inside a comprehension (the dict is empty)")
+                return fresh("int", "absent")
+            raise ProgExc(KeyError, "lookup in an empty dict")
+        if not (d.items and _promote_scalar_dict(d, key, next(iter(d.items.values())))):  # {int: scalar} read with a symbolic key
             raise Unsupported("symbolic key into a concrete dict")
+    if d.items is not None:
         if key in d.items:
             return d.items[key]
         if d.default_factory is not None and default is KeyError:
@@ -457,6 +468,29 @@ def dict_set_default(eng, d, key):
         raise Unsupported("default for scalar symbolic dict")
 
 
+def _promote_scalar_dict(d, key, val):
+    """a concrete dict {int: scalar} about to receive a SYMBOLIC int key becomes the symbolic dict with the same content (domain and
+    value arrays built from the entries); False if the dict is not of that shape"""
+    if getattr(d, "default_factory", None) is not None or getattr(d, "frozen", False) or kind_of(key) != "int":
+        return False
+    if not all(isinstance(k, int) and not isinstance(k, bool) for k in d.items):
+        return False
+    kinds = {kind_of(v) for v in list(d.items.values()) + [val]}
+    if None in kinds or len(kinds) != 1:
+        return False
+    (vk,) = kinds
+    entries = list(d.items.items())
+    d.promote(vk, empty=True)
+    default = {"int": z3.IntVal(0), "real": z3.RealVal(0), "bool": z3.BoolVal(False)}.get(vk)
+    if default is None:
+        return False
+    d.val = z3.K(z3.IntSort(), default)
+    for k, v in entries:
+        d.dom = z3.Store(d.dom, k, z3.BoolVal(True))
+        d.val = z3.Store(d.val, k, to_z3(v, vk))
+    return True
+
+
 def setitem(eng, base, idx, val):
     if isinstance(base, PList):
         check_frame(eng, base)
@@ -493,9 +527,11 @@ def setitem(eng, base, idx, val):
         check_frame(eng, base)  # a dict that belongs to a frozen input (its column table, a cache the constructor made) may not be stored into
         if base.items is not None:
             if isinstance(idx, Sym):
-                raise Unsupported("symbolic key store into a concrete dict (add a `types` hint)")
-            base.items[idx] = val
-            return
+                if not _promote_scalar_dict(base, idx, val):
+                    raise Unsupported("symbolic key store into a concrete dict (add a `types` hint)")
+            else:
+                base.items[idx] = val
+                return
         kz = to_z3(idx, "int")
         base.dom = z3.Store(base.dom, kz, z3.BoolVal(True))
         if base.vkind == "intlist":
